@@ -410,6 +410,7 @@ class GenOpts:
         self.p_explicit = 0.55
         self.p_nonnull = 0.3
         self.rename_roots = 0.15
+        self.p_gate = 0.0                 # @vtgate on arguments / fields (scheduler suspension points)
         self.__dict__.update(kw)
 
 
@@ -606,4 +607,14 @@ def gen_schema(rng, opts=None):
             t.type_resolver = rng.random() < 0.5
     s.custom_default_resolver = rng.random() < 0.2
     s.custom_default_type_resolver = rng.random() < 0.2
+    if o.p_gate:
+        s.directives["vtgate"] = DirectiveDef("vtgate", ["FIELD_DEFINITION", "ARGUMENT_DEFINITION"])
+        for t in s.types.values():
+            if t.kind == "OBJECT":
+                for f in t.fields.values():
+                    if rng.random() < o.p_gate:
+                        f.directives.append(("vtgate", []))
+                    for a in f.args:
+                        if rng.random() < o.p_gate * 2:
+                            a.directives.append(("vtgate", []))
     return s
